@@ -131,6 +131,10 @@ class Fn:
             if [t for _, t in args] != list(argt):
                 raise Unsupported('call argument types %s' % e.func.id)
             return '(%s %s)' % (cn, ' '.join(a for a, _ in args)), rt
+        if isinstance(e, ast.Call) and ((isinstance(e.func, ast.Name) and e.func.id == 'pack') or
+                                        (isinstance(e.func, ast.Attribute) and e.func.attr == 'pack' and
+                                         isinstance(e.func.value, ast.Name) and e.func.value.id == 'struct')):
+            return self.struct_pack(e, env)
         if isinstance(e, ast.Call) and isinstance(e.func, ast.Name):
             f = e.func.id
             if e.keywords:
@@ -180,6 +184,35 @@ class Fn:
                 raise Unsupported('index type')
             return '(pyidx %s %s)' % (a, i), INT
         raise Unsupported('expression %s' % ast.dump(e)[:80])
+
+    def struct_pack(self, e, env):
+        """struct.pack with a literal format made of B, H, I and an optional byte order prefix; the Coq
+        functions are total (Python raises struct.error outside the field range: bridge lemmas carry the range)"""
+        if e.keywords or not e.args or not isinstance(e.args[0], ast.Constant) or not isinstance(e.args[0].value, str):
+            raise Unsupported('struct.pack format')
+        fmt = e.args[0].value
+        order = '>'
+        if fmt and fmt[0] in '<>!=@':
+            order = {'!': '>', '=': '<', '@': '<'}.get(fmt[0], fmt[0])
+            fmt = fmt[1:]
+        fields = []
+        i = 0
+        while i < len(fmt):
+            j = i
+            while j < len(fmt) and fmt[j].isdigit():
+                j += 1
+            n = int(fmt[i:j]) if j > i else 1
+            if j >= len(fmt) or fmt[j] not in 'BHI':
+                raise Unsupported('struct.pack format character')
+            fields += [fmt[j]] * n
+            i = j + 1
+        args = [self.expr(a, env) for a in e.args[1:]]
+        if len(args) != len(fields) or any(t != INT for _, t in args):
+            raise Unsupported('struct.pack arguments')
+        fn = {('B', '>'): 'pack_u8', ('B', '<'): 'pack_u8', ('H', '>'): 'pack_be16', ('H', '<'): 'pack_le16',
+              ('I', '>'): 'pack_be32', ('I', '<'): 'pack_le32'}
+        parts = ['(%s %s)' % (fn[(f, order)], a) for f, (a, _) in zip(fields, args)]
+        return '(' + ' ++ '.join(parts) + ')', BYTES
 
     def undefined(self, name):
         raise Unsupported('variable %s used before assignment' % name)
@@ -263,16 +296,22 @@ class Fn:
                 eb = self.block((s.orelse or []) + ([] if (s.orelse and self.ends_in_return(s.orelse)) else rest), env, k)
                 return '(if %s\n then %s\n else %s)' % (c, tb, eb)
             vs = self.assigned([s])
+            newtypes = {}
             for v in vs:
                 if v not in env:
-                    raise Unsupported('variable %s first assigned inside an if' % v)
+                    # allowed only when both branches definitely assign it (at their top level) with one type
+                    tb_t = self.def_type(s.body, v, env)
+                    te_t = self.def_type(s.orelse or [], v, env)
+                    if tb_t is None or tb_t != te_t:
+                        raise Unsupported('variable %s first assigned inside an if' % v)
+                    newtypes[v] = tb_t
             if not vs:
                 raise Unsupported('if without effect')
             tb = self.block(s.body, env, lambda e: self.tup(vs))
             eb = self.block(s.orelse or [], env, lambda e: self.tup(vs))
             env2 = dict(env)
             for v in vs:
-                env2[v] = (env[v][0], True)
+                env2[v] = (newtypes[v] if v in newtypes else env[v][0], True)
             return 'let %s := (if %s\n then %s\n else %s) in\n%s' % (self.pat(vs), c, tb, eb, self.block(rest, env2, k))
         if isinstance(s, ast.For):
             if s.orelse or not isinstance(s.target, ast.Name):
@@ -324,6 +363,20 @@ class Fn:
         if isinstance(s, ast.Pass):
             return self.block(rest, env, k)
         raise Unsupported('statement %s' % type(s).__name__)
+
+    def def_type(self, stmts, v, env):
+        """type of variable v after the first top-level assignment to it in stmts (None if not definitely assigned)"""
+        e = dict(env)
+        for st in stmts:
+            if isinstance(st, ast.Assign) and len(st.targets) == 1 and isinstance(st.targets[0], ast.Name):
+                try:
+                    _, t = self.expr(st.value, e)
+                except Unsupported:
+                    return None
+                if st.targets[0].id == v:
+                    return t
+                e[st.targets[0].id] = (t, True)
+        return None
 
     @staticmethod
     def ends_in_return(stmts):
